@@ -341,3 +341,417 @@ def is_extensible_case(c: Case) -> bool:
         return False
 
     return rec(c.proto.defs) or any(rec(im.proto.defs) for im in c.proto.imports)
+
+
+# --------------------------------------------------------------------------- F_evo (C05)
+
+import copy
+
+
+def _ext_nodes(p: Proto) -> List[Tuple[str, Any]]:
+    """extensible nodes of a proto in a deterministic order: ('msg', Message) | ('arr', TArray)"""
+    out: List[Tuple[str, Any]] = []
+    seen: set = set()
+
+    def rec_type(t: Any) -> None:
+        if isinstance(t, TArray):
+            if t.ext and id(t) not in seen:
+                seen.add(id(t))
+                out.append(("arr", t))
+            rec_type(t.el)
+
+    def rec(ds: List[Any]) -> None:
+        for d in ds:
+            if isinstance(d, Alias):
+                rec_type(d.to)
+            elif isinstance(d, Message):
+                rec(d.nested)
+                if d.ext:
+                    out.append(("msg", d))
+                for f in d.fields:
+                    rec_type(f.type)
+
+    rec(p.defs)
+    return out
+
+
+EVO_MSG_STEPS = ("app1", "app2", "appmsg")
+EVO_ARR_STEPS = ("cap+1", "cap+3", "capx2")
+
+
+def _apply_step(p: Proto, idx: int, step: str, uid: int) -> None:
+    kind, node = _ext_nodes(p)[idx]
+    if kind == "msg":
+        nxt = max([f.number for f in node.fields] or [0]) + 1
+        if nxt > 250:
+            return
+        if step == "app1":
+            node.fields.append(Field(TBase("uint", 5), f"new{uid}", nxt))
+        elif step == "app2":
+            node.fields.append(Field(TBase("int", 13), f"new{uid}a", nxt))
+            node.fields.append(Field(TArray(TBase("uint", 3), 2), f"new{uid}b", nxt + 3))
+        elif step == "appmsg":
+            sub = Message(f"New{uid}", [Field(TBase("uint", 9), "q", 1)], ext=True)
+            # define the new message just before the first top-level definition that needs it
+            p.defs.insert(0, sub)
+            node.fields.append(Field(TRef(sub), f"new{uid}", nxt))
+    else:
+        if step == "cap+1":
+            node.cap += 1
+        elif step == "cap+3":
+            node.cap += 3
+        elif step == "capx2":
+            node.cap *= 2
+
+
+@dataclass
+class EvoCase:
+    name: str
+    old: Case
+    new: Case
+    steps: Tuple[str, ...]
+    tags: Tuple[str, ...] = ()
+
+
+def evo_bases() -> List[Case]:
+    bases = [c for c in f_shape_core() if "ext" in c.tags and c.name not in ("drone",) and not any(im for im in c.proto.imports)]
+    U = lambda n: TBase("uint", n)
+    I = lambda n: TBase("int", n)
+    # arrays of extensible messages (element and capacity may both grow)
+    el = Message("El", [Field(U(6), "a", 1), Field(I(9), "b", 2)], ext=True)
+    m = Message("M", [Field(U(3), "h", 1), Field(TArray(TRef(el), 2, ext=True), "els", 2), Field(U(7), "t", 3)])
+    bases.append(case_of("evo_arr_of_ext", Proto("evo_arr_of_ext", [el, m]), ("ext",), only=["M"]))
+    # extensible array of a 2-D alias, nested message after it
+    row = Alias("Row", TArray(I(5), 2, ext=True))
+    inner = Message("Inner", [Field(TRef(row), "r", 1), Field(U(2), "z", 2)], ext=True)
+    m2 = Message("M", [Field(TArray(TRef(row), 2, ext=True), "rows", 1), Field(TRef(inner), "inner", 2), Field(TArray(TRef(inner), 2), "inners", 3), Field(I(4), "t", 4)], ext=True)
+    bases.append(case_of("evo_rows", Proto("evo_rows", [row, inner, m2]), ("ext",), only=["M"]))
+    # empty extensible placeholder
+    res = Message("Reserved", [], ext=True)
+    m3 = Message("M", [Field(U(3), "h", 1), Field(TRef(res), "r", 2), Field(TArray(TRef(res), 2), "rs", 3), Field(U(6), "t", 4)])
+    bases.append(case_of("evo_reserved", Proto("evo_reserved", [res, m3]), ("ext",), only=["M"]))
+    # signed/enum elements in grown arrays, arrays at the very end of the message
+    e = _e("Mode", 3, [0, 2, 5])
+    m4 = Message("M", [Field(U(1), "h", 1), Field(TArray(TRef(e), 2, ext=True), "modes", 2), Field(TArray(I(11), 3, ext=True), "vals", 3), Field(TArray(TBase("byte"), 2, ext=True), "raw", 4)])
+    bases.append(case_of("evo_tail", Proto("evo_tail", [e, m4]), ("ext",), only=["M"]))
+    return bases
+
+
+def f_evo(quick: bool, seed: int) -> List[EvoCase]:
+    out: List[EvoCase] = []
+    rng = random.Random(seed * 31 + 5)
+    for base in evo_bases():
+        nodes = _ext_nodes(base.proto)
+        singles: List[Tuple[int, str]] = []
+        for i, (kind, _) in enumerate(nodes):
+            for st in EVO_MSG_STEPS if kind == "msg" else EVO_ARR_STEPS:
+                singles.append((i, st))
+        chains: List[Tuple[Tuple[int, str], ...]] = [(s,) for s in singles]
+        pairs = [(a, b) for a in singles for b in singles]
+        if quick:
+            rng.shuffle(pairs)
+            pairs = pairs[: max(4, len(singles))]
+            chains = chains[:: 2] if len(chains) > 12 else chains
+        chains += pairs
+        only = [m.name for m in base.top()]
+        for ci, ch in enumerate(chains):
+            p2 = copy.deepcopy(base.proto)
+            p2.name = base.proto.name  # same file/proto name: versions of one schema
+            for k, (i, st) in enumerate(ch):
+                # node indices refer to the traversal order of the *current* proto; appended
+                # messages are inserted in front, so re-locate by identity order offset
+                cur = _ext_nodes(p2)
+                shift = len(cur) - len(nodes)
+                _apply_step(p2, i + shift if st != "zzz" else i, st, 10 * ci + k)
+            new = case_of(base.name, p2, base.tags, only)
+            out.append(EvoCase(f"{base.name}#{ci}", base, new, tuple(f"{i}:{st}" for i, st in ch), base.tags))
+    return out
+
+
+# --------------------------------------------------------------------------- F_rw (C12)
+
+from .schema import Style
+
+
+@dataclass
+class RwCase:
+    name: str
+    a: Case
+    b: Case
+    rewrites: Tuple[str, ...]
+    pairs: List[Tuple[Tuple[Message, List[str]], Tuple[Message, List[str]]]]  # corresponding messages
+    style_b: Optional[Style] = None
+
+
+def _all_msgs(ds: List[Any]) -> List[Message]:
+    out = []
+    for d in ds:
+        if isinstance(d, Message):
+            out.extend(_all_msgs(d.nested))
+            out.append(d)
+    return out
+
+
+def _walk_types(p: Proto):
+    """yield (holder, attr) for every type slot: Field.type, Alias.to, TArray.el"""
+    def rec_t(holder: Any, attr: str):
+        t = getattr(holder, attr)
+        yield holder, attr
+        if isinstance(t, TArray):
+            yield from rec_t(t, "el")
+    for d in p.defs:
+        if isinstance(d, Alias):
+            yield from rec_t(d, "to")
+    for m in _all_msgs(p.defs):
+        for f in m.fields:
+            yield from rec_t(f, "type")
+
+
+def rw_rename(p: Proto) -> bool:
+    for d in p.defs:
+        if isinstance(d, (Alias, Enum, Const)):
+            d.name = d.name + "Rn"
+    for m in _all_msgs(p.defs):
+        m.name = m.name + "Rn"
+        for f in m.fields:
+            f.name = "r_" + f.name
+        for n in m.nested:
+            if isinstance(n, Enum):
+                n.name += "Rn"
+    for d in list(p.defs) + [n for m in _all_msgs(p.defs) for n in m.nested]:
+        if isinstance(d, Enum):
+            d.members = [(nm + "_RN", v) for nm, v in d.members]
+    for h, a in _walk_types(p):
+        t = getattr(h, a)
+        if isinstance(t, TRef) and t.text_ and "." not in t.text_:
+            t.text_ = None
+        if isinstance(t, TArray) and t.cap_text and not t.cap_text[0].isdigit() and "(" not in t.cap_text and " " not in t.cap_text:
+            t.cap_text = t.cap_text + "Rn"
+    return True
+
+
+def rw_reorder_fields(p: Proto) -> bool:
+    ch = False
+    for m in _all_msgs(p.defs):
+        if len(m.fields) > 1:
+            m.fields.reverse()
+            ch = True
+    return ch
+
+
+def _deps(d: Any) -> List[Any]:
+    out: List[Any] = []
+
+    def rec_t(t: Any) -> None:
+        if isinstance(t, TArray):
+            rec_t(t.el)
+        elif isinstance(t, TRef):
+            out.append(t.target)
+
+    if isinstance(d, Alias):
+        rec_t(d.to)
+    elif isinstance(d, Message):
+        for n in d.nested:
+            out.extend(x for x in _deps(n) if x is not n)
+        for f in d.fields:
+            rec_t(f.type)
+    return out
+
+
+def rw_reorder_defs(p: Proto) -> bool:
+    """another valid topological order: repeatedly emit the *last* ready definition"""
+    ids = {id(d): d for d in p.defs}
+    nested_owner = {}
+    for d in p.defs:
+        if isinstance(d, Message):
+            for m in _all_msgs(d.nested) + [n for n in d.nested]:
+                nested_owner[id(m)] = d
+    remaining = list(p.defs)
+    done: List[Any] = []
+    has_const = any(isinstance(d, Const) for d in p.defs)
+    if has_const:
+        return False
+    while remaining:
+        ready = [d for d in remaining if all((id(x) not in ids and id(nested_owner.get(id(x), x)) not in ids) or any(x is y or nested_owner.get(id(x)) is y for y in done) or x is d or nested_owner.get(id(x)) is d for x in _deps(d))]
+        if not ready:
+            return False
+        d = ready[-1]
+        remaining.remove(d)
+        done.append(d)
+    ch = any(a is not b for a, b in zip(done, p.defs))
+    p.defs = done
+    return ch
+
+
+def rw_alias_intro(p: Proto) -> bool:
+    k = 0
+    new: List[Alias] = []
+    for m in _all_msgs(p.defs):
+        for f in m.fields:
+            t = f.type
+            if isinstance(t, TBase) or (isinstance(t, TArray) and isinstance(t.el, TBase) and not t.cap_text):
+                a = Alias(f"Rw{k}", t)
+                k += 1
+                new.append(a)
+                f.type = TRef(a)
+    p.defs = new + p.defs  # type: ignore
+    return bool(new)
+
+
+def rw_alias_inline(p: Proto) -> bool:
+    ch = False
+    for m in _all_msgs(p.defs):
+        for f in m.fields:
+            t = f.type
+            if isinstance(t, TRef) and isinstance(t.target, Alias) and "." not in (t.text_ or ""):
+                f.type = copy.deepcopy(t.target.to) if isinstance(t.target.to, TBase) else TArray(t.target.to.el, t.target.to.cap, t.target.to.ext, t.target.to.cap_text)
+                ch = True
+            elif isinstance(t, TArray) and isinstance(t.el, TRef) and isinstance(t.el.target, Alias) and isinstance(t.el.target.to, TBase) and "." not in (t.el.text_ or ""):
+                t.el = copy.deepcopy(t.el.target.to)
+                ch = True
+    return ch
+
+
+def rw_nest(p: Proto) -> bool:
+    """move a top-level message/enum that is referenced from exactly one top-level message
+    (and from nothing else) into that message"""
+    users: Dict[int, List[Any]] = {}
+    for d in p.defs:
+        for x in _deps(d):
+            users.setdefault(id(x), []).append(d)
+    for d in list(p.defs):
+        if not isinstance(d, (Message, Enum)):
+            continue
+        us = users.get(id(d), [])
+        tops = {id(u) for u in us}
+        if len(tops) == 1 and isinstance(us[0], Message) and us[0] is not d and us[0] in p.defs:
+            host = us[0]
+            if isinstance(d, Message) and (d.nested or any(id(x) != id(d) and isinstance(x, (Message, Enum)) and x in p.defs and False for x in _deps(d))):
+                continue
+            if any(getattr(n, "name", None) == d.name for n in host.nested) or any(f.name == d.name for f in host.fields):
+                continue
+            p.defs.remove(d)
+            host.nested.append(d)
+            return True
+    return False
+
+
+def rw_hoist(p: Proto) -> bool:
+    names = {d.name for d in p.defs}
+    for m in p.defs:
+        if isinstance(m, Message) and m.nested:
+            n = m.nested[0]
+            if n.name in names:
+                continue
+            # refs written as a plain name keep resolving (file scope is searched last)
+            m.nested.remove(n)
+            p.defs.insert(p.defs.index(m), n)
+            for h, a in _walk_types(p):
+                t = getattr(h, a)
+                if isinstance(t, TRef) and t.target is n:
+                    t.text_ = None
+            return True
+    return False
+
+
+def rw_to_import(p: Proto) -> bool:
+    if p.imports:
+        return False
+    movable = []
+    for d in p.defs:
+        if isinstance(d, (Enum, Alias)) or (isinstance(d, Message) and not d.nested):
+            if all(any(x is y for y in movable) for x in _deps(d)):
+                movable.append(d)
+        if len(movable) >= 2:
+            break
+    if not movable:
+        return False
+    lib = Proto(p.name + "_lib", list(movable))
+    for d in movable:
+        p.defs.remove(d)
+    p.imports.append(Import(lib, None))
+    for h, a in _walk_types(p):
+        t = getattr(h, a)
+        if isinstance(t, TRef) and any(t.target is d for d in movable):
+            t.text_ = f"{lib.name}.{t.target.name}"
+    return True
+
+
+def rw_const_expr(p: Proto) -> bool:
+    k = 0
+    consts: List[Const] = []
+    for h, a in _walk_types(p):
+        t = getattr(h, a)
+        if isinstance(t, TArray) and not t.cap_text:
+            if k % 2 == 0:
+                c = Const(f"CAP_{k}", f"({t.cap} + {k + 3}) * 2 / 2 - {k + 3}", t.cap)
+            else:
+                c = Const(f"CAP_{k}", f"0x{t.cap:x}", t.cap)
+            consts.append(c)
+            t.cap_text = c.name
+            k += 1
+    p.defs = consts + p.defs  # type: ignore
+    return bool(consts)
+
+
+def rw_renumber(p: Proto) -> bool:
+    ch = False
+    for m in _all_msgs(p.defs):
+        order = sorted(m.fields, key=lambda f: f.number)
+        for r, f in enumerate(order):
+            nn = 3 * r + 2
+            if nn != f.number:
+                ch = True
+            f.number = nn
+    return ch
+
+
+REWRITES = {
+    "rename": rw_rename, "reorder_fields": rw_reorder_fields, "reorder_defs": rw_reorder_defs, "alias_intro": rw_alias_intro, "alias_inline": rw_alias_inline,
+    "nest": rw_nest, "hoist": rw_hoist, "to_import": rw_to_import, "const_expr": rw_const_expr, "renumber": rw_renumber, "style": None,
+}
+STYLE_B = Style(semi=True, indent="  ", blank_between=2, comments=True, trailing_ws=True)
+
+
+def rw_bases() -> List[Case]:
+    keep = ("nest0", "nest5", "nested_decl", "arr_msg", "arr_nd", "arr_bytes", "ext3", "ext7", "extalias", "perm1", "perm9", "empty", "wide3", "sarr9", "sarr24", "drone", "enum3", "enum9", "batch16_5", "extarr4")
+    bases = [c for c in f_shape_core() if c.name in keep]
+    return bases
+
+
+def f_rw(quick: bool, seed: int) -> List[RwCase]:
+    rng = random.Random(seed * 17 + 3)
+    bases = rw_bases()
+    for i in range(6 if quick else 40):
+        bases.append(rand_case(rng, 500 + i))
+    out: List[RwCase] = []
+    names = list(REWRITES)
+    for base in bases:
+        combos: List[Tuple[str, ...]] = [(n,) for n in names]
+        for _ in range(2 if quick else 8):
+            combos.append(tuple(rng.sample(names, rng.choice([2, 3]))))
+        for combo in combos:
+            memo: Dict[int, Any] = {}
+            p2 = copy.deepcopy(base.proto, memo)
+            applied = []
+            style = None
+            for rw in combo:
+                if rw == "style":
+                    style = STYLE_B
+                    applied.append(rw)
+                elif REWRITES[rw](p2):
+                    applied.append(rw)
+            if not applied:
+                continue
+            # the rewritten main proto keeps its file name unless renamed explicitly
+            b = case_of(base.name, p2, base.tags)
+            chains_b = {id(m): ch for m, ch in _msgs(p2)}
+            pairs = []
+            for m, ch in base.messages:
+                m2 = memo.get(id(m))
+                if m2 is None or id(m2) not in chains_b:
+                    continue  # moved into the imported file
+                pairs.append(((m, ch), (m2, chains_b[id(m2)])))
+            if pairs:
+                out.append(RwCase(f"{base.name}:{'+'.join(applied)}", base, b, tuple(applied), pairs, style))
+    return out
